@@ -8,7 +8,7 @@ mod c09;
 mod c10;
 #[cfg(feature = "c16")]
 mod c16;
-#[cfg(any(feature = "c08", feature = "c09", feature = "c11"))]
+#[cfg(any(feature = "c08", feature = "c09", feature = "c11", feature = "c15"))]
 mod canvas;
 #[cfg(feature = "c13")]
 mod c13;
@@ -51,7 +51,7 @@ use std::panic;
 fn dispatch(prop: &str, case: &str) -> String {
     match prop {
         #[cfg(feature = "c01")]
-        "C01" | "C14" | "C05" | "C10S" | "C20S" => c01::run(case),
+        "C01" | "C14" | "C05" | "C10S" | "C20S" | "C07S" => c01::run(case),
         #[cfg(feature = "c09")]
         "C09" => c09::run(case),
         #[cfg(feature = "c10")]
